@@ -6,11 +6,13 @@ fn unnest(path: &expression::Query, ctx: &mut Context) -> Resolved {
 
     match path.target() {
         expression::Target::External(prefix) => {
+            // The target may reject the read (or have no root): that is an error of this
+            // call, not a reason to panic.
             let root = ctx
                 .target()
                 .target_get(&OwnedTargetPath::root(*prefix))
-                .expect("must never fail")
-                .expect("always a value");
+                .map_err(|err| format!("error querying target: {err}"))?
+                .ok_or("target has no root value")?;
             unnest_root(root, lookup_buf)
         }
         expression::Target::Internal(v) => {
